@@ -385,5 +385,8 @@ PROPS["C15"]["rules"] = PROPS["C15"]["rules"] + [rules_gr.rule_import_compressio
 PROPS["C15"]["explanation"] += " (CRDRV) each of the three storage conventions GR imports images from (GR Vgroup, RIG, ungrouped RI8/CI8/II8) can select the compressed-raster driver for the image it finds."
 PROPS["C09"]["rules"] = PROPS["C09"]["rules"] + [rules_gr.rule_import_compression]
 
+PROPS["C15"]["rules"] = PROPS["C15"]["rules"] + [rules_gr.rule_rig_number_type]
+PROPS["C15"]["explanation"] += " (RIGNT) the number types for which GR writes a compatibility RIG are accepted by both RIG readers (DFR8, DFGR/DF24)."
+
 NOT_APPLICABLE = {}
 
